@@ -154,20 +154,19 @@ class Fn:
     def ids_named(self, name):
         if self._defs is None:
             self._scan_defs()
-        ids = [i for i, nm in self._names.items() if nm == name]
-        if not ids:
-            cur = getattr(self, "_renames", {}).get(name)
-            if cur:
-                ids = [i for i, nm in self._names.items() if nm == cur]
-        return ids
+        cur = getattr(self, "_renames", {}).get(name)
+        if cur:
+            return [i for i, nm in self._names.items() if nm == cur]
+        return [i for i, nm in self._names.items() if nm == name]
 
     def cur(self, name):
         """Current spelling of a local the rule tables know as `name` (renamed-local tolerance)."""
         if self._defs is None:
             self._scan_defs()
-        if name in self._names.values():
-            return name
-        return getattr(self, "_renames", {}).get(name, name)
+        cur = getattr(self, "_renames", {}).get(name)
+        if cur:
+            return cur
+        return name
 
     def calls(self):
         """All (point, call-node) pairs, each call once (at its own element)."""
